@@ -99,25 +99,38 @@ Fixpoint cntf (f : Z -> Z) (j : Z) (n : nat) : Z :=
 
 Definition ceil_div (n k : Z) : Z := (n + k - 1) / k.
 
-(* ---- concurrent pickers: Sched instance; the only shared access of Pop is the atomic add ---- *)
-Record pth := { todo : nat; got : list Z (* positions picked, latest first *) }.
-Record psh := { cursor : Z; plog : list Z (* ghost: positions in the order the adds happened, latest first *) }.
+(* ---- concurrent pickers: Sched instance.  Pop has two shared accesses on a stable ready list of k >= 2:
+        loadbalancer.LoadOrStore(key, new counter)   -- ONE atomic get-or-create step
+        atomic.AddUint64(counter, 1)                 -- the pick is decided here ---- *)
+Record pth := { todo : nat; atadd : bool (* parked in front of the add (else: in front of LoadOrStore) *);
+                got : list Z (* positions picked, latest first *) }.
+Record psh := { cursor : Z;      (* value of the counter of this ready list (0 while it is not in the map) *)
+                present : bool;  (* the counter has been published in the map *)
+                plog : list Z (* ghost: positions in the order the adds happened, latest first *) }.
 
 Definition pstep (k : Z) (s : psh) (t : pth) : psh * pth :=
   match todo t with
   | O => (s, t)
-  | S n => let c := wrapu64 (cursor s + 1) in
-           ({| cursor := c; plog := (c mod k) :: plog s |}, {| todo := n; got := (c mod k) :: got t |})
+  | S n =>
+      if atadd t then
+        let c := wrapu64 (cursor s + 1) in
+        ({| cursor := c; present := present s; plog := (c mod k) :: plog s |},
+         {| todo := n; atadd := false; got := (c mod k) :: got t |})
+      else   (* LoadOrStore: the existing counter, or a fresh 0 published atomically *)
+        ({| cursor := cursor s; present := true; plog := plog s |},
+         {| todo := S n; atadd := true; got := got t |})
   end.
 
 Definition plive (t : pth) : bool := match todo t with O => false | _ => true end.
 
-Fixpoint pexec (k : Z) (st : config psh pth) (sched : list nat) : config psh pth * list Z :=
+(* trace entries: (goroutine, 1 if this step completed a pick else 0) *)
+Fixpoint pexec (k : Z) (st : config psh pth) (sched : list nat) : config psh pth * list (Z * Z) :=
   match sched with
   | [] => (st, [])
   | i :: r =>
       match nth_error (snd st) i with
-      | Some t => if plive t then let '(st', tr) := pexec k (run1 (pstep k) st i) r in (st', Z.of_nat i :: tr)
+      | Some t => if plive t then let '(st', tr) := pexec k (run1 (pstep k) st i) r in
+                                  (st', (Z.of_nat i, if atadd t then 1 else 0) :: tr)
                   else pexec k st r
       | None => pexec k st r
       end
@@ -126,7 +139,7 @@ Fixpoint pexec (k : Z) (st : config psh pth) (sched : list nat) : config psh pth
 Fixpoint pfirst_live (ts : list pth) (i : nat) : option nat :=
   match ts with [] => None | t :: r => if plive t then Some i else pfirst_live r (S i) end.
 
-Fixpoint pdrain (k : Z) (fuel : nat) (st : config psh pth) : config psh pth * list Z :=
+Fixpoint pdrain (k : Z) (fuel : nat) (st : config psh pth) : config psh pth * list (Z * Z) :=
   match fuel with
   | O => (st, [])
   | S f => match pfirst_live (snd st) 0 with
@@ -137,10 +150,11 @@ Fixpoint pdrain (k : Z) (fuel : nat) (st : config psh pth) : config psh pth * li
   end.
 
 Definition pinit (c0 : Z) (picks : list nat) : config psh pth :=
-  ({| cursor := c0; plog := [] |}, map (fun n => {| todo := n; got := [] |}) picks).
+  ({| cursor := c0; present := false; plog := [] |}, map (fun n => {| todo := n; atadd := false; got := [] |}) picks).
 
-(* trace of goroutine ids, per-goroutine picked positions, global order of picked positions *)
-Definition model_conc (k c0 : Z) (picks : list nat) (sched : list nat) : list Z * list (list Z) * list Z :=
+(* trace, per-goroutine picked positions, global order of picked positions, counter afterwards *)
+Definition model_conc (k c0 : Z) (picks : list nat) (sched : list nat)
+  : list (Z * Z) * list (list Z) * list Z * Z :=
   let '(st1, tr1) := pexec k (pinit c0 picks) sched in
-  let '(st2, tr2) := pdrain k (fold_right Nat.add 1%nat picks) st1 in
-  (tr1 ++ tr2, map (fun t => rev (got t)) (snd st2), rev (plog (fst st2))).
+  let '(st2, tr2) := pdrain k (2 * fold_right Nat.add 0%nat picks + 1) st1 in
+  (tr1 ++ tr2, map (fun t => rev (got t)) (snd st2), rev (plog (fst st2)), cursor (fst st2)).
